@@ -64,6 +64,14 @@ def gen_case(rng):
             'existing': rng.random() < 0.5, 'cmd_style': rng.choice(['cat', 'cat', 'printf'])}
 
 
+def target_of(fl):
+    if fl['how'] == 'dir':
+        return 'outdir/' + fl['name']
+    if fl['how'] == 'glob':
+        return 'g_' + fl['name']
+    return fl['name']
+
+
 def build_dir(case, d):
     """the command's inputs (in_*), pre-existing bystander files, and the command line"""
     os.makedirs(d, exist_ok=True)
